@@ -31,12 +31,37 @@ def watched_modules() -> list[tuple[str, types.ModuleType]]:
     return out
 
 
+_CODE_TYPES = (
+    types.ModuleType,
+    types.FunctionType,
+    types.BuiltinFunctionType,
+    types.MethodType,
+    types.MethodDescriptorType,
+    types.WrapperDescriptorType,
+    types.MemberDescriptorType,
+    types.GetSetDescriptorType,
+    property,
+    classmethod,
+    staticmethod,
+    type,
+)
+
+
 def _is_codelike(v: Any) -> bool:
+    """Functions, builtins, classes, modules, descriptors, partials, primitives
+    and other callables.  Plain data (scalars, dicts such as lazily evaluated
+    __annotations__, lists, counters) that libraries rebind on their own is not
+    the converter's doing and is ignored unless it is in the write set."""
     if isinstance(v, _SCALAR):
         return False
-    if isinstance(v, (tuple, frozenset)) and all(isinstance(x, _SCALAR) for x in v):
+    if isinstance(v, _CODE_TYPES):
+        return True
+    if isinstance(v, (dict, list, tuple, set, frozenset, bytearray)):
         return False
-    return True
+    try:
+        return callable(v)
+    except Exception:
+        return False
 
 
 def _from_jax2onnx(v: Any) -> bool:
